@@ -79,6 +79,70 @@ func readKinds(t vfexec.TxDesc) []string {
 	return ks
 }
 
+// pendingAfter walks the instructions one executed transaction really performed (its observations tell
+// how far it got) and returns how many successful LocalDB.Set calls are still buffered, i.e. not yet
+// sent to the block's local store by a List, when it stops.  `declared` adds the local KVs the
+// framework itself sets after a successful ExecLocal.
+func pendingAfter(t vfexec.TxDesc, obs []string, succeeded bool, pending int) int {
+	j := 0
+	walk := func(ops []vfexec.Op) bool { // false: stopped
+		for _, o := range ops {
+			switch o.Kind {
+			case "F", "P":
+				return false
+			case "G", "LG":
+				if j >= len(obs) {
+					return false
+				}
+				j++
+			case "LS", "LH":
+				if j >= len(obs) {
+					return false
+				}
+				if obs[j] == "ok" {
+					pending++
+				}
+				j++
+			case "LL":
+				if j >= len(obs) {
+					return false
+				}
+				if obs[j] != "dr" {
+					pending = 0 // List saves the buffered writes first
+				}
+				j++
+			}
+		}
+		return true
+	}
+	if walk(t.ExecOps) && vfexec.SameTime(string(t.Execer)) {
+		walk(t.LocOps)
+		if succeeded {
+			for _, o := range t.LocOps {
+				if o.Kind == "LD" || o.Kind == "LS" {
+					pending++
+				}
+			}
+		}
+	}
+	return pending
+}
+
+// unflushed: did the failed unit leave buffered local writes behind when it was rolled back?
+func unflushed(u vfexec.Unit, receipts []*types.Receipt, obs [][]string) bool {
+	// the member carrying the error log failed; the members before it had succeeded (their receipts were
+	// reset to ExecPack afterwards), the members after it never ran
+	pending := 0
+	for i, t := range u.Txs {
+		failed := vfexec.Failed(receipts[i])
+		pending = pendingAfter(t, obs[i], !failed, pending)
+		if failed {
+			break
+		}
+	}
+	return pending > 0
+}
+
 // check evaluates the C11 predicate for block `units` on base bi.
 func check(w *vfexec.World, bi int, units []vfexec.Unit) {
 	a := w.Run(bi, cloneUnits(units))
@@ -115,6 +179,20 @@ func check(w *vfexec.World, bi int, units []vfexec.Unit) {
 			out.Stat("tx_ok", 1)
 		default:
 			out.Stat("tx_pack_none_driver", 1)
+		}
+	}
+	firstTx := make([]int, len(units))
+	for i := len(unitOf) - 1; i >= 0; i-- {
+		firstTx[unitOf[i]] = i
+	}
+	leaky := map[int]bool{} // failed units rolled back with buffered local writes (precondition of S-C11)
+	for ui := range units {
+		if failedUnit[ui] {
+			n := len(units[ui].Txs)
+			leaky[ui] = unflushed(units[ui], a.Receipts[firstTx[ui]:firstTx[ui]+n], a.Obs[firstTx[ui]:firstTx[ui]+n])
+			if leaky[ui] {
+				out.Stat("failed_units_with_buffered_local_writes", 1)
+			}
 		}
 	}
 	for ui := range units {
@@ -165,8 +243,18 @@ func check(w *vfexec.World, bi int, units []vfexec.Unit) {
 						if j < len(kinds) && kinds[j] == "S" {
 							kind = "state"
 						}
-						out.Pred("C11|"+site+"|later-"+kind+"-read-differs",
-							detail+fmt.Sprintf(" tx=%d read=%d with=%s feeonly=%s", i, j, oa[j], ob[j]))
+						sig := "C11|" + site + "|later-" + kind + "-read-differs"
+						if kind == "local" {
+							// S-C11 needs a failed unit, at or before the differing transaction's position, that was
+							// rolled back while local writes were still buffered; anything else is a different defect
+							for uj := 0; uj < unitOf[i]; uj++ {
+								if leaky[uj] {
+									sig += "-after-rollback-with-buffered-local-writes"
+									break
+								}
+							}
+						}
+						out.Pred(sig, detail+fmt.Sprintf(" tx=%d read=%d with=%s feeonly=%s", i, j, oa[j], ob[j]))
 						out.Stat("later_"+kind+"_read_differs", 1)
 						break
 					}
